@@ -182,7 +182,18 @@ pub fn sample_once(d: &Dist, words: &[u64], tail_seed: u64) -> Result<f64, (Stri
         }
         Ok(v) => {
             if el > Duration::from_millis(250) {
-                return Err(("slow".into(), format!("sample took {:?}", el)));
+                // wall-clock time on a loaded machine is noisy: only a sample that is slow three times in a row counts
+                let mut best = el;
+                for _ in 0..2 {
+                    let mut r2 = WordRng::new(words, tail_seed);
+                    r2.cap = DRAW_CAP;
+                    let t1 = std::time::Instant::now();
+                    let _ = std::panic::catch_unwind(std::panic::AssertUnwindSafe(|| d.sample(&mut r2)));
+                    best = best.min(t1.elapsed());
+                }
+                if best > Duration::from_millis(250) {
+                    return Err(("slow".into(), format!("sample took {:?} (fastest of three attempts)", best)));
+                }
             }
             if v.is_nan() {
                 return Err(("nan".into(), "sample returned NaN".into()));
@@ -485,12 +496,20 @@ pub fn worker(ctx: &WorkerCtx) -> WorkerOut {
                         let mut h = spawn_helper();
                         let (mut n, mut hangs) = (0u64, 0u64);
                         let mut finds = vec![];
+                        let mut known_hangs_seen = 0u32;
+                        let known_pre = |w: &Vec<u64>| w.iter().take(3).any(|x| *x >> 34 == u64::MAX >> 34);
                         loop {
                             let i = bnext.fetch_add(1, Ordering::Relaxed);
                             if i >= jobs.len() {
                                 break;
                             }
                             let (d, w) = &jobs[i];
+                            if known_hangs_seen >= 2 && known_pre(w) {
+                                // inputs carrying the precondition of the recorded Binomial finding: already confirmed twice by this
+                                // thread; executing every one of them would only wait for the watchdog again
+                                finds.push(Finding { kind: "skipped-known-precondition".into(), msg: String::new(), dist: *d, words: w.clone(), tail: tails[0], consumer: None });
+                                continue;
+                            }
                             let line = format!("{} {} {}\n", enc_dist(d), tails[0], w.iter().map(|x| format!("{:x}", x)).collect::<Vec<_>>().join(" "));
                             n += 1;
                             if i % 256 == 0 {
@@ -511,11 +530,30 @@ pub fn worker(ctx: &WorkerCtx) -> WorkerOut {
                                     }
                                 }
                                 Err(_) => {
-                                    hangs += 1;
+                                    // confirm with a fresh helper and a longer watchdog before calling it a hang
                                     let _ = h.child.kill();
                                     let _ = h.child.wait();
                                     h = spawn_helper();
-                                    finds.push(Finding { kind: "hang".into(), msg: "sample did not return within 1.5 s and stopped drawing random numbers".into(), dist: *d, words: w.clone(), tail: tails[0], consumer: None });
+                                    let _ = h.stdin.write_all(line.as_bytes());
+                                    let _ = h.stdin.flush();
+                                    match h.rx.recv_timeout(Duration::from_millis(4000)) {
+                                        Ok(l) => {
+                                            if let Some(rest) = l.strip_prefix("viol ") {
+                                                let (k, m) = rest.split_once(' ').unwrap_or((rest, ""));
+                                                finds.push(Finding { kind: k.into(), msg: m.into(), dist: *d, words: w.clone(), tail: tails[0], consumer: None });
+                                            }
+                                        }
+                                        Err(_) => {
+                                            hangs += 1;
+                                            if known_pre(w) {
+                                                known_hangs_seen += 1;
+                                            }
+                                            let _ = h.child.kill();
+                                            let _ = h.child.wait();
+                                            h = spawn_helper();
+                                            finds.push(Finding { kind: "hang".into(), msg: "sample did not return within 1.5 s, nor within 4 s in a fresh process, and stopped drawing random numbers".into(), dist: *d, words: w.clone(), tail: tails[0], consumer: None });
+                                        }
+                                    }
                                 }
                             }
                         }
@@ -536,6 +574,8 @@ pub fn worker(ctx: &WorkerCtx) -> WorkerOut {
         finds.extend(f);
     }
     // de-duplicate by signature, simplest script first
+    let skipped_known = finds.iter().filter(|f| f.kind == "skipped-known-precondition").count();
+    finds.retain(|f| f.kind != "skipped-known-precondition");
     finds.sort_by_key(|f| (f.words.len(), f.consumer.is_some()));
     let mut by_sig: std::collections::BTreeMap<String, (u64, Finding)> = Default::default();
     for f in finds {
@@ -559,7 +599,7 @@ pub fn worker(ctx: &WorkerCtx) -> WorkerOut {
         "rule": "distributions = 11 families x parameter corner grid x (start,max) corner pairs, kept if the real Dist::validate accepts them; for each, every RNG script whose prefix is any sequence of <= d extreme words (9-word menu; d = 2 quick, 3 thorough), plus 9 constant 64-word prefixes, followed by a fair xoshiro tail; oracle: returns within 1e5 draws / 250 ms (Binomial: 1.5 s watchdog in a helper process), no panic, value not NaN, >= 0, <= max when set; also through the framework consumers (timeout, duration, limit, counter). distinct_nontrivial = validated distributions sampled",
         "samples": samples, "exhaustive": ctx.only_unit.is_none(),
         "candidate_distributions": cands, "validated_distributions": dists.len(), "distributions_per_family": fams.iter().map(|(k, v)| (k.to_string(), json!(v))).collect::<serde_json::Map<String, Value>>(),
-        "scripts_per_distribution": scr.len(), "fair_tails": tails.len(), "in_process_samples": n, "binomial_helper_samples": bn, "binomial_helper_hangs": hangs, "consumer_calls": cons, "rejected_distributions_tried_in_machines": rejected_tried, "machines_with_a_rejected_distribution_that_were_accepted": rejected_machines_accepted, "infinite_values_returned_without_max": inf,
+        "scripts_per_distribution": scr.len(), "fair_tails": tails.len(), "in_process_samples": n, "binomial_helper_samples": bn, "binomial_helper_hangs": hangs, "binomial_inputs_skipped_after_two_confirmed_known_hangs_per_thread": skipped_known, "consumer_calls": cons, "rejected_distributions_tried_in_machines": rejected_tried, "machines_with_a_rejected_distribution_that_were_accepted": rejected_machines_accepted, "infinite_values_returned_without_max": inf,
         "findings_by_signature": by_sig.iter().map(|(k, v)| (k.clone(), json!(v.0))).collect::<serde_json::Map<String, Value>>(),
         "wall_s": t0.elapsed().as_secs_f64(),
     });
